@@ -57,12 +57,70 @@ class Curtain(GridObject):
         return f'Curtain({self.opaque})'
 
 
-def enable(cleats=False, curtain=False):
+def enable(cleats=False, curtain=False, subclasses=False):
     """add the custom types to the generators' type pool of this process"""
     from . import gen
+    g = globals()
     if cleats and Cleats not in gen.GRID_TYPES:
         gen.GRID_TYPES.append(Cleats)
         gen.HOLDABLE_TYPES.append(Cleats)
     if curtain and Curtain not in gen.GRID_TYPES:
         gen.GRID_TYPES.append(Curtain)
+    if subclasses:
+        for name in ('Patrol', 'GoalExit', 'Gate'):
+            if g[name] not in gen.GRID_TYPES:
+                gen.GRID_TYPES.append(g[name])
     return Cleats, Curtain
+
+
+# ---- user-defined subclasses of concrete built-in types: the components decide by isinstance, equality by type index
+from gym_gridverse.grid_object import Door, Exit, MovingObstacle  # noqa: E402
+
+
+class Patrol(MovingObstacle):
+    """a moving obstacle of a derived class"""
+
+    def __repr__(self):
+        return 'Patrol()'
+
+
+class GoalExit(Exit):
+    """an exit of a derived class"""
+
+    def __repr__(self):
+        return f'GoalExit({self.color!s})'
+
+
+class Gate(Door):
+    """a door of a derived class (own registry index: never equal to a Door)"""
+
+    def __repr__(self):
+        return f'Gate({self.state!s}, {self.color!s})'
+
+
+class Countdown(GridObject):
+    """an object with many statuses (encoded values beyond one byte)"""
+
+    color = Color.NONE
+    blocks_movement = False
+    blocks_vision = False
+    holdable = False
+
+    def __init__(self, k=0):
+        self.k = int(k)
+        super().__init__()
+
+    @property
+    def state_index(self):
+        return self.k
+
+    @classmethod
+    def can_be_represented_in_state(cls):
+        return True
+
+    @classmethod
+    def num_states(cls):
+        return 300
+
+    def __repr__(self):
+        return f'Countdown({self.k})'
